@@ -587,3 +587,12 @@ def gen_all(tier, seed, scale=0.34):
         pick = cs if len(cs) <= k else rng.sample(cs, k)
         out += pick; stats[name] = len(pick)
     return out, stats
+
+
+# ---------------------------------------------------------------- concurrent readers (C16)
+def gen_thr(tier, seed):
+    rng = random.Random(seed * 141650939 + 61)
+    cases = []
+    for j in range(6 if tier == "quick" else 60):
+        cases.append("THR h%d %d %d %d" % (j, rng.choice([2, 3, 4, 8, 16]), rng.randrange(1 << 30), rng.choice([50, 700, 3000, 20000])))
+    return cases, {"threads": [c.split()[2] for c in cases]}
